@@ -338,11 +338,15 @@ class RedlineEngine:
 
         # 1. Inline Logic
         first_line = lines[0]
-        ins_elem = self._track_insert_inline(first_line, anchor_run, suppress_inherited=suppress_inherited)
-
         remaining_lines = lines[1:]
         if remaining_lines and remaining_lines[-1] == "":
             remaining_lines.pop()
+
+        # New text that starts with a line break has no inline part: an empty w:ins would be left behind and a comment
+        # anchored on it would never be displayed. The insertion then consists of the new paragraphs only.
+        ins_elem = None
+        if first_line or not remaining_lines:
+            ins_elem = self._track_insert_inline(first_line, anchor_run, suppress_inherited=suppress_inherited)
 
         if remaining_lines:
             if not anchor_run:
@@ -364,6 +368,7 @@ class RedlineEngine:
             except ValueError:
                 return ins_elem
 
+            created_nodes = []
             for i, line_text in enumerate(remaining_lines):
                 clean_text, style_name = self._parse_markdown_style(line_text)
                 new_p = create_element("w:p")
@@ -389,6 +394,15 @@ class RedlineEngine:
 
                 new_p.append(new_ins)
                 parent_body.insert(p_index + 1 + i, new_p)
+                created_nodes.append((new_p, new_ins))
+
+            if ins_elem is None and comment and created_nodes:
+                start_p, start_ins = created_nodes[0]
+                end_p, end_ins = created_nodes[-1]
+                if start_p == end_p:
+                    self._attach_comment(start_p, start_ins, start_ins, comment)
+                else:
+                    self._attach_comment_spanning(start_p, start_ins, end_p, end_ins, comment)
 
         return ins_elem
 
